@@ -167,6 +167,8 @@ struct Monitor<'a> {
     violated: bool,
 }
 
+static VERBOSE: std::sync::atomic::AtomicBool = std::sync::atomic::AtomicBool::new(false);
+
 struct PassReport {
     result: PassResult,
     /// Head indices that committed (success only).
@@ -193,6 +195,15 @@ impl Monitor<'_> {
             self.case.when
         );
         self.rep.violation(&sig, &what, replay);
+    }
+
+    /// Replay mode: print the history as it unfolds.
+    fn echo(&self) {
+        if VERBOSE.load(std::sync::atomic::Ordering::Relaxed) {
+            if let Some(l) = self.log.last() {
+                println!("  {l}");
+            }
+        }
     }
 
     fn runnable_model(&self) -> Vec<usize> {
@@ -249,6 +260,7 @@ impl Monitor<'_> {
         let result = self.w.pass();
         self.rep.count("passes_total", 1);
         self.log.push(format!("{label}: {}", result.class()));
+        self.echo();
 
         let w = &self.w;
         let post_parts = fp::full(&w.runtime, &w.provenance, &w.engine);
@@ -944,13 +956,25 @@ pub fn run_case(case: &Case, rep: &mut Report) {
         }
     }
     // drain budgets
-    for r in 0..3 {
+    for r in 0..4 {
         if (0..m.w.keys.len()).all(|h| m.dormant.contains(&h) || m.w.admit_preview(h).is_empty()) {
             break;
         }
         let _ = m.pass(&format!("drain-pass {r}"));
         if m.violated {
             return;
+        }
+    }
+    // a pass with nothing to admit: no records, global tick still +1
+    if (0..m.w.keys.len()).all(|h| m.dormant.contains(&h) || m.w.admit_preview(h).is_empty()) {
+        let ri = m.pass("idle-pass");
+        if m.violated {
+            return;
+        }
+        if let PassResult::Ok(r) = &ri.result {
+            if r.is_empty() {
+                m.rep.count("idle_passes_checked", 1);
+            }
         }
     }
     m.exactly_once();
@@ -1006,6 +1030,7 @@ fn replay(_args: &Args, path: &std::path::Path, mut rep: Report) -> i32 {
         return 2;
     };
     println!("REPLAY C09 {:?}", case);
+    VERBOSE.store(true, std::sync::atomic::Ordering::Relaxed);
     run_case(&case, &mut rep);
     if rep.violations() > 0 {
         1
